@@ -556,3 +556,95 @@ Lemma cds_ms_of_today_example :
   cds_ms_of_today (rne 863999995 10000) = 86399999 /\ cds_ms_of_today (rne 1009995 10000) = 100999 /\
   cds_ms_of_today (rne (-1) 2) = 86399500.
 Proof. vm_compute. repeat split; reflexivity. Qed.
+
+(* the _unix_seconds cached by from_datetime: dt.timestamp() is within 2^-21 s of the datetime *)
+Lemma dt_timestamp_close ud sod us :
+  dt_instant_us ud sod us <> 0 -> Z.abs (dt_instant_us ud sod us) < 1000000 * 2 ^ 33 ->
+  fl_close (dt_timestamp ud sod us) (dt_instant_us ud sod us) 1000000 21 /\
+  fl_normal (dt_timestamp ud sod us).
+Proof.
+  intros H1 H2. unfold dt_timestamp. fold (dt_instant_us ud sod us).
+  destruct (rne_result_close (dt_instant_us ud sod us) 1000000 (dt_instant_us ud sod us) 1000000 33
+              ltac:(lia) ltac:(lia) eq_refl H1 H2 ltac:(lia)) as (A & B & _).
+  split; assumption.
+Qed.
+
+(* ================= ms_of_today ================= *)
+
+(* fl(s * 1000) for a double s = m * 2^e, e < 0, |s * 1000| < 2^44: within 2^-10 of the exact product *)
+Lemma fmul1000_close s : fm s <> 0 -> fe s < 0 -> Z.abs (fm s) * 1000 < 2 ^ (- fe s) * 2 ^ 44 ->
+  fl_close (fmul s (of_Z 1000)) (fm s * 1000) (2 ^ (- fe s)) 10.
+Proof.
+  intros Hm He Hb. rewrite of_Z_1000. unfold fmul, rne2. cbn [fm fe].
+  destruct (0 <=? fe s + -43) eqn:C; [lia|].
+  pose proof (pow2_pos (- fe s) ltac:(lia)) as PD.
+  assert (PE : 2 ^ (- (fe s + -43)) = 2 ^ 43 * 2 ^ (- fe s)).
+  { rewrite <- pow2_add by lia. f_equal. lia. }
+  assert (G1 : 0 < 2 ^ (- (fe s + -43))) by (rewrite PE; lia).
+  assert (G2 : fm s * 8796093022208000 * 2 ^ (- fe s) = fm s * 1000 * 2 ^ (- (fe s + -43))).
+  { rewrite PE. change 8796093022208000 with (1000 * 2 ^ 43). ring. }
+  assert (G3 : Z.abs (fm s * 1000) < 2 ^ (- fe s) * 2 ^ 44).
+  { rewrite Z.abs_mul. change (Z.abs 1000) with 1000. exact Hb. }
+  destruct (rne_result_close _ _ (fm s * 1000) (2 ^ (- fe s)) 44 G1 PD G2 ltac:(lia) G3 ltac:(lia))
+    as (A & _).
+  exact A.
+Qed.
+
+(* floor of a double P within 2^-10 of the rational N/D: the floor of N/D, or its neighbour
+   when N/D is within 2^-10 of that neighbour's boundary *)
+Lemma floor_close P N D : 0 < D -> fl_close P N D 10 ->
+  let fx := N / D in let rx := N mod D in
+  ffloor P = fx \/ (ffloor P = fx + 1 /\ 2 ^ 10 * (D - rx) <= D) \/ (ffloor P = fx - 1 /\ 2 ^ 10 * rx <= D).
+Proof.
+  intros HD [He Hc]. cbv zeta. unfold ffloor. destruct (0 <=? fe P) eqn:C; [lia|].
+  set (Q := 2 ^ (- fe P)) in *. assert (HQ : 0 < Q) by (apply pow2_pos; lia).
+  set (A := fm P) in *. change (2 ^ 10) with 1024 in *.
+  pose proof (Z.div_mod A Q ltac:(lia)) as EA. pose proof (Z.mod_pos_bound A Q HQ) as BA.
+  pose proof (Z.div_mod N D ltac:(lia)) as EN. pose proof (Z.mod_pos_bound N D HD) as BN.
+  set (fP := A / Q) in *. set (rP := A mod Q) in *. set (fx := N / D) in *. set (rx := N mod D) in *.
+  assert (ID : D * A - N * Q = D * Q * (fP - fx) + (D * rP - Q * rx)) by (rewrite EA, EN; ring).
+  rewrite ID in Hc. clear ID EA EN.
+  assert (U1 : 0 < D * Q) by nia.
+  assert (U2 : 0 <= D * rP < D * Q) by nia.
+  assert (U3 : 0 <= Q * rx < D * Q) by nia.
+  set (u1 := D * Q) in *. set (u2 := D * rP) in *. set (u3 := Q * rx) in *.
+  set (k := fP - fx) in *.
+  assert (Hk : -1 <= k <= 1).
+  { destruct (Z_le_dec 2 k) as [K|K].
+    - assert (2 * u1 <= u1 * k) by nia. lia.
+    - destruct (Z_le_dec k (-2)) as [K'|K']; [|lia].
+      assert (u1 * k <= -2 * u1) by nia. lia. }
+  assert (k = 0 \/ k = 1 \/ k = -1) as [K|[K|K]] by lia.
+  - left. unfold k in K. lia.
+  - right. left. split; [unfold k in K; lia|].
+    rewrite K, Z.mul_1_r in Hc.
+    assert (1024 * (u1 - u3) <= u1) by lia.
+    assert (Q * (1024 * (D - rx)) <= Q * D).
+    { replace (Q * (1024 * (D - rx))) with (1024 * (u1 - u3)) by (unfold u1, u3; ring).
+      replace (Q * D) with u1 by (unfold u1; ring). assumption. }
+    apply Z.mul_le_mono_pos_l in H0; assumption.
+  - right. right. split; [unfold k in K; lia|].
+    rewrite K in Hc.
+    assert (1024 * u3 <= u1) by lia.
+    assert (Q * (1024 * rx) <= Q * D).
+    { replace (Q * (1024 * rx)) with (1024 * u3) by (unfold u3; ring).
+      replace (Q * D) with u1 by (unfold u1; ring). assumption. }
+    apply Z.mul_le_mono_pos_l in H0; assumption.
+Qed.
+
+(* ms_of_today(s) for a double 0 < |s| < 2^44 / 1000 seconds (s = m * 2^e, so that s * 1000 =
+   N / D with N = 1000 m, D = 2^-e): the millisecond of the day of floor(s * 1000), or of its
+   neighbour when s * 1000 is within 2^-10 ms of that neighbour *)
+Lemma cds_ms_of_today_close s : fm s <> 0 -> fe s < 0 -> Z.abs (fm s) * 1000 < 2 ^ (- fe s) * 2 ^ 44 ->
+  let N := fm s * 1000 in let D := 2 ^ (- fe s) in
+  cds_ms_of_today s = (N / D) mod 86400000 \/
+  (cds_ms_of_today s = (N / D + 1) mod 86400000 /\ 2 ^ 10 * (D - N mod D) <= D) \/
+  (cds_ms_of_today s = (N / D - 1) mod 86400000 /\ 2 ^ 10 * (N mod D) <= D).
+Proof.
+  intros Hm He Hb. cbv zeta. unfold cds_ms_of_today, MS_PER_DAY.
+  pose proof (pow2_pos (- fe s) ltac:(lia)) as PD.
+  destruct (floor_close _ _ _ PD (fmul1000_close s Hm He Hb)) as [-> | [[-> H] | [-> H]]].
+  - left. reflexivity.
+  - right. left. split; [reflexivity|exact H].
+  - right. right. split; [reflexivity|exact H].
+Qed.
